@@ -5,7 +5,7 @@ import sympy as sp
 
 from ..kernels import contraction_normal_form, gather_table, K_labels
 from ..stencil import SV, Lab, c, Gather, OrderTab, Contract
-from ..stencil_spec import Finding, check_diff_kernel, check_moment_kernel, stencil_of, compare, inc_axis, tvalues, al, be, A, B
+from ..stencil_spec import Finding, check_diff_kernel, check_moment_kernel, stencil_of, compare, inc_axis, tvalues, al, be, A, B, compose_increments
 from ..report import AnalysisError
 from .momfam import sub_extractor
 
@@ -39,7 +39,7 @@ def check_diff_extractor(repo, sub, findings, R=None):
     exchanged = all(sp.simplify(_a[pos].e - w) == 0 for pos, w in {2: B(c), 4: be, 5: A(c), 7: al}.items())
     info["exchanged"] = exchanged
     al_d = be if exchanged else al
-    for s in ex.stores:
+    for s in compose_increments(ex, list(ex.stores)):
         terms, const, tsyms, subs = stencil_of(ex, s)
         vals, lows, consts = tvalues(tsyms)
         if not terms:
